@@ -243,7 +243,13 @@ func genC04(t *rapid.T) c04Case {
 		Debug:   rapid.Bool().Draw(t, "debug"),
 	}
 	g := smallGraph(t)
-	valid := g.JSONLD(genLDOpts(t, len(g.Nodes)))
+	opts := genLDOpts(t, len(g.Nodes))
+	if rapid.IntRange(0, 2).Draw(t, "amfShape") == 0 {
+		// the shape the upstream parser emits (flat @graph, absolute IRIs, wrapped values): where shortcuts for
+		// "already normal" documents apply
+		opts = m.LDOpts{GraphWrap: 1, Unwrap1: rapid.Bool().Draw(t, "amfUnwrap"), Indent: rapid.SampledFrom([]int{0, 2}).Draw(t, "amfIndent")}
+	}
+	valid := g.JSONLD(opts)
 	switch rapid.IntRange(0, 7).Draw(t, "class") {
 	case 0, 1:
 		c.Class = "strict-prefix"
